@@ -186,8 +186,64 @@ def template_of(node: ast.AST) -> Tuple[Optional[str], List[ast.AST]]:
     return "".join(parts), holes
 
 
+_FMT_FIELD = re.compile(r"\{\{|\}\}|\{([^{}!:]*)(?:![rsa])?(?::[^{}]*)?\}")
+_PCT_FIELD = re.compile(r"%%|%[-+ #0]*\d*(?:\.\d+)?[sdifgr]")
+
+
+def format_template(node: ast.AST) -> Tuple[Optional[str], List[ast.AST]]:
+    """Like template_of for the other spellings of a formatted string: `'..{}..{0}..{k}'.format(a, b, k=c)` and
+    `'..%s..%d' % (a, b)`.  -> (text with ⟨k⟩ placeholders, holes) or (None, [])."""
+    if isinstance(node, ast.Call) and isinstance(node.func, ast.Attribute) and node.func.attr == "format" \
+            and isinstance(node.func.value, ast.Constant) and isinstance(node.func.value.value, str) \
+            and not any(isinstance(a, ast.Starred) for a in node.args) and all(k.arg for k in node.keywords):
+        kw = {k.arg: k.value for k in node.keywords}
+        holes: List[ast.AST] = []
+        auto = [0]
+        bad = []
+
+        def rep(m):
+            if m.group(0) == "{{":
+                return "{"
+            if m.group(0) == "}}":
+                return "}"
+            fld = m.group(1)
+            if fld == "":
+                i = auto[0]
+                auto[0] += 1
+                e = node.args[i] if i < len(node.args) else None
+            elif fld.isdigit():
+                e = node.args[int(fld)] if int(fld) < len(node.args) else None
+            else:
+                e = kw.get(fld)
+            if e is None:
+                bad.append(fld)
+                return ""
+            holes.append(e)
+            return f"⟨{len(holes) - 1}⟩"
+        text = _FMT_FIELD.sub(rep, node.func.value.value)
+        return (None, []) if bad else (text, holes)
+    if isinstance(node, ast.BinOp) and isinstance(node.op, ast.Mod) and isinstance(node.left, ast.Constant) \
+            and isinstance(node.left.value, str):
+        vals = list(node.right.elts) if isinstance(node.right, ast.Tuple) else [node.right]
+        holes = []
+        bad = []
+
+        def rep(m):
+            if m.group(0) == "%%":
+                return "%"
+            if len(holes) >= len(vals):
+                bad.append(m.group(0))
+                return ""
+            holes.append(vals[len(holes)])
+            return f"⟨{len(holes) - 1}⟩"
+        text = _PCT_FIELD.sub(rep, node.left.value)
+        return (None, []) if bad or len(holes) != len(vals) else (text, holes)
+    return None, []
+
+
 def templates_in(fnode: ast.AST):
-    """(JoinedStr node, text, holes) for every f-string of a function body (nested defs included)."""
+    """(node, text, holes) for every formatted string of a function body (nested defs included): f-strings, `'..'.format(..)`
+    and `'..' % (..)` with a literal format."""
     for n in ast.walk(fnode):
         if isinstance(n, ast.JoinedStr):
             par = parent(n)
@@ -195,11 +251,53 @@ def templates_in(fnode: ast.AST):
                 continue
             t, h = template_of(n)
             yield n, t, h
+        elif isinstance(n, (ast.Call, ast.BinOp)):
+            t, h = format_template(n)
+            if t is not None and h:
+                yield n, t, h
 
 
-def split_offset(e: ast.AST) -> Tuple[ast.AST, Optional[ast.AST]]:
-    """`k + b` -> (k, b); `k` -> (k, None).  The offset is the right operand."""
+def string_template(S: "Scope", e: ast.AST, depth=0) -> Tuple[Optional[str], List[ast.AST]]:
+    """Template of a string-valued expression in any spelling (f-string, .format, %, concatenation with str(x)), looking
+    through single-definition names."""
+    if depth > 6:
+        return None, []
+    e = S.single_value(e)
+    t, h = template_of(e)
+    if t is not None:
+        return t, h
+    t, h = format_template(e)
+    if t is not None:
+        return t, h
     if isinstance(e, ast.BinOp) and isinstance(e.op, ast.Add):
+        parts, holes = [], []
+        for side in (e.left, e.right):
+            if isinstance(side, ast.Call) and isinstance(side.func, ast.Name) and side.func.id in ("str", "repr") and len(side.args) == 1:
+                ts, hs = "⟨0⟩", [side.args[0]]
+            else:
+                ts, hs = string_template(S, side, depth + 1)
+            if ts is None:
+                return None, []
+            ts = re.sub(r"⟨(\d+)⟩", lambda m: f"⟨{int(m.group(1)) + len(holes)}⟩", ts)
+            parts.append(ts)
+            holes += hs
+        return "".join(parts), holes
+    return None, []
+
+
+def split_offset(e: ast.AST, S: Optional["Scope"] = None) -> Tuple[ast.AST, Optional[ast.AST]]:
+    """`k + b` -> (k, b); `k` -> (k, None).  The offset is the operand that is an integer literal or (when a Scope is given) the
+    backend's `_start_idx`; `b + k` is read the same way.  Without such an operand the right one is taken as the offset."""
+    if isinstance(e, ast.BinOp) and isinstance(e.op, ast.Add):
+        def is_off(x):
+            if isinstance(x, ast.Constant) and isinstance(x.value, int) and not isinstance(x.value, bool):
+                return True
+            if S is not None:
+                v = S.single_value(x)
+                return isinstance(v, ast.Attribute) and v.attr == "_start_idx"
+            return False
+        if is_off(e.left) and not is_off(e.right):
+            return e.right, e.left
         return e.left, e.right
     return e, None
 
@@ -388,8 +486,8 @@ class Layout:
             return res
         return None
 
-    def _container_elem(self, cont: ast.AST, k: int, depth) -> Optional[dict]:
-        """`cont` is a list of tuples built in this function by `D[key].append((..))`; type of tuple position k."""
+    def container_tuples(self, cont: ast.AST) -> List[ast.Tuple]:
+        """`cont` is (one list of) a dict of lists of tuples built in this function: the tuple expressions put into it."""
         root = cont
         if isinstance(cont, ast.Name):
             bs = self.S.binds(cont)
@@ -397,9 +495,15 @@ class Layout:
                 role, base, rest = element_origin(bs[0].expr, bs[0].path)
                 if role == "value" and not rest:
                     root = base
+        if isinstance(root, ast.Subscript):         # for x in groups[key]
+            root = root.value
         if not isinstance(root, ast.Name):
-            return None
-        tuples = group_tuples(self.S, root.id)
+            return []
+        return group_tuples(self.S, root.id)
+
+    def _container_elem(self, cont: ast.AST, k: int, depth) -> Optional[dict]:
+        """`cont` is a list of tuples built in this function by `D[key].append((..))`; type of tuple position k."""
+        tuples = self.container_tuples(cont)
         if not tuples:
             return None
         res = None
@@ -838,6 +942,12 @@ def foreign_index_reason(S: Scope, lay: Layout, e: ast.AST, depth=0) -> Optional
                     return f"the range counter `{e.id}`"
                 if role == "key" and lay.is_map(base):
                     return f"a key (not a value) of the state layout `{ast.unparse(base)}`"
+                if role == "elem" and len(rest) == 1:
+                    for t in lay.container_tuples(base):
+                        if rest[0] < len(t.elts) and lay.value(t.elts[rest[0]]) is None:
+                            r = foreign_index_reason(S, lay, t.elts[rest[0]], depth + 1)
+                            if r:
+                                return f"{r}, stored in the group element `{ast.unparse(t)}`"
             elif b.kind == "value" and not b.path and b.expr is not None and lay.value(b.expr) is None:
                 r = foreign_index_reason(S, lay, b.expr, depth + 1)
                 if r:
@@ -1286,45 +1396,91 @@ def _call_args(call: ast.Call, names: List[str]) -> Dict[str, ast.AST]:
     return out
 
 
-def key_component(S: Scope, e: ast.AST, stores: List[EntryStore]) -> Optional[Tuple[str, int, ast.AST]]:
-    """If Name `e` is component `pos` of the key of one entry of an entry table: (table root, pos, binder)."""
-    if not isinstance(e, ast.Name):
+def iter_bind(S: Scope, e: ast.AST, depth=0) -> Optional[Tuple[Bind, tuple]]:
+    """Name `e` is (a component of) the element of exactly one for/comprehension: (its Bind, path inside the element).
+    Looks through `a, b = elem`, `a = elem[0]`, `a = b`."""
+    if not isinstance(e, ast.Name) or depth > 4:
         return None
     bs = S.binds(e)
-    if len(bs) != 1 or bs[0].kind != "iter":
+    if len(bs) != 1:
         return None
-    role, base, rest = element_origin(bs[0].expr, bs[0].path)
+    b = bs[0]
+    if b.kind == "iter":
+        return b, tuple(b.path)
+    if b.kind != "value" or b.expr is None:
+        return None
+    v = b.expr
+    if isinstance(v, ast.Name):
+        r = iter_bind(S, v, depth + 1)
+        return (r[0], r[1] + tuple(b.path)) if r else None
+    if not b.path and isinstance(v, ast.Subscript) and isinstance(v.slice, ast.Constant) and isinstance(v.slice.value, int) \
+            and v.slice.value >= 0:
+        r = iter_bind(S, v.value, depth + 1)
+        return (r[0], r[1] + (v.slice.value,)) if r else None
+    return None
+
+
+def key_component(S: Scope, e: ast.AST, stores: List[EntryStore]) -> Optional[Tuple[str, int, ast.AST]]:
+    """If Name `e` is component `pos` of the key of one entry of an entry table: (table root, pos, binder)."""
+    ib = iter_bind(S, e)
+    if ib is None:
+        return None
+    b, path = ib
+    role, base, rest = element_origin(b.expr, path)
     if role != "key" or len(rest) != 1 or not isinstance(base, ast.Name):
         return None
     roots0 = {s.root for s in stores if s.depth == 0}
     roots1 = {s.root for s in stores if s.depth == 1}
-    if base.id in roots0 and all(b.kind == "value" for b in S.binds(base)):
-        return base.id, rest[0], bs[0].node
-    bb = S.binds(base)
-    if len(bb) == 1 and bb[0].kind == "iter":
-        r2, b2, rest2 = element_origin(bb[0].expr, bb[0].path)
+    if base.id in roots0 and all(b2.kind == "value" for b2 in S.binds(base)):
+        return base.id, rest[0], b.node
+    bb = iter_bind(S, base)
+    if bb is not None:
+        r2, b2, rest2 = element_origin(bb[0].expr, bb[1])
         if r2 == "value" and not rest2 and isinstance(b2, ast.Name) and b2.id in roots1:
-            return b2.id, rest[0], bs[0].node
+            return b2.id, rest[0], b.node
     return None
 
 
 def table_value(S: Scope, e: ast.AST, stores: List[EntryStore]) -> Optional[str]:
     """If Name `e` is the value of one entry of an entry table: the table root."""
-    if not isinstance(e, ast.Name):
+    ib = iter_bind(S, e)
+    if ib is None:
         return None
-    bs = S.binds(e)
-    if len(bs) != 1 or bs[0].kind != "iter":
-        return None
-    role, base, rest = element_origin(bs[0].expr, bs[0].path)
+    role, base, rest = element_origin(ib[0].expr, ib[1])
     if role != "value" or rest or not isinstance(base, ast.Name):
         return None
     if base.id in {s.root for s in stores if s.depth == 0}:
         return base.id
-    bb = S.binds(base)
-    if len(bb) == 1 and bb[0].kind == "iter":
-        r2, b2, rest2 = element_origin(bb[0].expr, bb[0].path)
+    bb = iter_bind(S, base)
+    if bb is not None:
+        r2, b2, rest2 = element_origin(bb[0].expr, bb[1])
         if r2 == "value" and not rest2 and isinstance(b2, ast.Name) and b2.id in {s.root for s in stores if s.depth == 1}:
             return b2.id
+    return None
+
+
+def foreign_key_reason(S: Scope, e: ast.AST, stores: List[EntryStore]) -> Optional[str]:
+    """A positive reason why `e` is not a component of a table key (it is something else that is understood); None = unknown."""
+    if isinstance(e, ast.Constant):
+        return f"the literal {e.value!r}"
+    if isinstance(e, ast.Name):
+        if table_value(S, e, stores):
+            return "the value (not the key) of a table entry"
+        if counter_of(S, e) is not None:
+            return f"the hand-advanced counter `{e.id}`"
+        ib = iter_bind(S, e)
+        if ib is not None:
+            role, base, rest = element_origin(ib[0].expr, ib[1])
+            if role == "index":
+                return f"the enumerate position `{e.id}`"
+            if role == "key" and len(rest) != 1:
+                return "a whole key, not one of its two components"
+            it = strip_wrappers(ib[0].expr)
+            if isinstance(it, ast.Call) and isinstance(it.func, ast.Name) and it.func.id == "range":
+                return f"the range counter `{e.id}`"
+            if role in ("key", "value", "elem"):
+                return f"bound by `{norm(ib[0].node) if isinstance(ib[0].node, ast.stmt) else ast.unparse(ib[0].expr)}`, which does not " \
+                       f"iterate over a Jacobian entry table"
     return None
 
 
@@ -1345,8 +1501,11 @@ def emit_sites(ctx):
             a = _call_args(c, ["name", "indices", "expr"])
             if "indices" in a:
                 a["indices"] = S.single_value(a["indices"])
-            if not {"name", "indices", "expr"} <= set(a) or not isinstance(a["indices"], ast.Tuple) or len(a["indices"].elts) != 2:
+            if not {"name", "indices", "expr"} <= set(a) or not isinstance(a["indices"], (ast.Tuple, ast.List)) or len(a["indices"].elts) != 2:
                 raise AnalysisError(f"C12: {f.qual}: `{norm(c)}` has an unrecognised argument form")
+            # `r = i_r + start` defined beforehand: look through single-definition locals of each index
+            elts = [S.single_value(x) if isinstance(S.single_value(x), ast.BinOp) else x for x in a["indices"].elts]
+            a["indices"] = ast.copy_location(ast.Tuple(elts=elts, ctx=ast.Load()), a["indices"])
             out.append((c, a))
     if len(out) < 2:
         raise AnalysisError(f"C12: expected 2 emit_local_array_assign calls in get_jacobian_func, found {len(out)}")
@@ -1357,12 +1516,16 @@ def _r1_emitters(ctx, rid):
     f, S, stores, sites = emit_sites(ctx)
     for i, (c, a) in enumerate(sites):
         r, cidx = a["indices"].elts
-        kr, kc = key_component(S, split_offset(r)[0], stores), key_component(S, split_offset(cidx)[0], stores)
+        kr, kc = key_component(S, split_offset(r, S)[0], stores), key_component(S, split_offset(cidx, S)[0], stores)
         label = f"emitter #{i + 1}: (row, column) from table keys"
         facts = {"indices": ast.unparse(a["indices"]), "row": kr and kr[:2], "column": kc and kc[:2]}
         if kr is None or kc is None:
+            whys = [foreign_key_reason(S, split_offset(x, S)[0], stores) for x, k in ((r, kr), (cidx, kc)) if k is None]
+            if not all(whys):
+                raise AnalysisError(f"{rid}: {f.qual}: `{norm(c)}`: cannot determine where the emitted indices "
+                                    f"`{ast.unparse(a['indices'])}` come from (unrecognised form)")
             ctx.violation(rid, f, c, f"`{norm(c)}`: the emitted (row, column) is not taken from the key of a Jacobian entry table "
-                                     f"(row from {kr and kr[:2]}, column from {kc and kc[:2]})", facts, label=label)
+                                     f"(row from {kr and kr[:2]}, column from {kc and kc[:2]}): {'; '.join(whys)}", facts, label=label)
         elif kr[0] != kc[0] or kr[2] is not kc[2]:
             ctx.violation(rid, f, c, f"`{norm(c)}`: row and column come from different tables/iterations", facts, label=label)
         elif (kr[1], kc[1]) != (0, 1):
@@ -1376,7 +1539,7 @@ def r5_index_base(ctx, rid):
     f, S, stores, sites = emit_sites(ctx)
     for i, (c, a) in enumerate(sites):
         r, cidx = a["indices"].elts
-        br, bc = split_offset(r)[1], split_offset(cidx)[1]
+        br, bc = split_offset(r, S)[1], split_offset(cidx, S)[1]
         label = f"emitter #{i + 1}: index base"
         facts = {"indices": ast.unparse(a["indices"])}
         if is_start_idx(S, br) and is_start_idx(S, bc) and same_expr(S.single_value(br), S.single_value(bc)):
@@ -1442,16 +1605,14 @@ def fortran_block(ctx):
 
     def exported_key(e: ast.AST, pos: int):
         """Name e is component pos of the key of jac[<k>] -> (k, binder) ; else None"""
-        if not isinstance(e, ast.Name):
+        ib = iter_bind(S, e)
+        if ib is None:
             return None
-        bs = S.binds(e)
-        if len(bs) != 1 or bs[0].kind != "iter":
-            return None
-        role, base, rest = element_origin(bs[0].expr, bs[0].path)
-        if role != "key" or rest != (pos,):
+        role, base, rest = element_origin(ib[0].expr, ib[1])
+        if role != "key" or tuple(rest) != (pos,):
             return None
         k = dict_key_read(S, base, jac)
-        return (k, bs[0].node) if k else None
+        return (k, ib[0].node) if k else None
     res = {"f": f, "S": S, "jac": jac, "lines": lines, "exports": exports, "gstores": gstores, "exported_key": exported_key}
     ctx._c12_fortran = res
     return res
@@ -1519,8 +1680,13 @@ def _r1_fortran(ctx, rid):
                                              f"the table its sympy.diff results are stored in", facts, label=label)
             continue
         # value printed is the value of the same entry
-        vb = S.binds(l["val"].args[0]) if isinstance(l["val"], ast.Call) and l["val"].args and isinstance(l["val"].args[0], ast.Name) else []
-        if not (len(vb) == 1 and vb[0].kind == "iter" and vb[0].node is kr[1]):
+        varg = S.single_value(l["val"])
+        varg = varg.args[0] if isinstance(varg, ast.Call) and varg.args else varg
+        vib = iter_bind(S, varg)
+        if vib is None:
+            raise AnalysisError(f"{rid}: {f.qual}: `{l['template']}`: cannot determine where the printed expression "
+                                f"`{ast.unparse(l['val'])}` comes from (unrecognised form)")
+        if not (vib[0].node is kr[1] and element_origin(vib[0].expr, vib[1])[0] == "value"):
             ctx.violation(rid, f, l["call"], f"`{l['template']}`: the printed expression is not the value of the entry whose key gives the indices", facts, label=label)
             continue
         ctx.ok(rid, f, l["call"], f"indices and value come from one entry of the table exported as {want!r} (row = key[0], "
@@ -1587,7 +1753,7 @@ def text_index_sites(ctx):
     # which parameter supplies the indices?
     pmaps = set()
     for n, t, hole in cand:
-        k = split_offset(hole)[0]
+        k = split_offset(hole, Sg)[0]
         while isinstance(k, ast.Subscript):
             k = k.value
         if isinstance(k, ast.Name):
@@ -1650,7 +1816,7 @@ def _site_label(s):
 
 def _r1_text_indices(ctx, rid):
     for s in text_index_sites(ctx):
-        k = split_offset(s["hole"])[0]
+        k = split_offset(s["hole"], s["S"])[0]
         lv = s["lay"].value(k)
         st = parent(s["node"])
         while st is not None and not isinstance(st, ast.stmt):
@@ -1671,7 +1837,7 @@ def _r1_text_indices(ctx, rid):
 def _r5_text_indices(ctx, rid):
     fbase = fortran_start_idx(ctx)
     for s in text_index_sites(ctx):
-        off = split_offset(s["hole"])[1]
+        off = split_offset(s["hole"], s["S"])[1]
         st = parent(s["node"])
         while st is not None and not isinstance(st, ast.stmt):
             st = parent(st)
@@ -1728,27 +1894,56 @@ def _r1_emit_hooks(ctx, rid):
         if shape not in ("NAME[IDX]=EXPR", "NAME=NAME.at[IDX].set(EXPR)"):
             raise AnalysisError(f"{rid}: {f.qual}: emitted line `{t}` has an unrecognised shape `{shape}`")
         v = S.single_value(idx_hole)
-        good, why = False, "the index text is not `sep.join(str(i) for i in indices)`"
+        good, why = None, ""        # None = form not understood
+
+        def renders_itself(elt, var: str) -> Optional[bool]:
+            """elt prints loop variable `var` unchanged (str/repr/format/f-string/%): True; prints something else: False; unknown: None"""
+            if isinstance(elt, ast.Call) and isinstance(elt.func, ast.Name) and elt.func.id in ("str", "repr", "format") and len(elt.args) == 1:
+                inner = elt.args[0]
+            else:
+                tt, hh = string_template(S, elt)
+                if tt is None or len(hh) != 1 or tt != "⟨0⟩":
+                    return None if tt is None else False
+                inner = hh[0]
+            if isinstance(inner, ast.Name) and inner.id == var:
+                return True
+            if isinstance(inner, ast.Call) and isinstance(inner.func, ast.Name) and inner.func.id == "int" and len(inner.args) == 1 \
+                    and isinstance(inner.args[0], ast.Name) and inner.args[0].id == var:
+                return True
+            return False if any(isinstance(x, ast.Name) and x.id == var for x in ast.walk(inner)) else None
+
+        def in_order(it) -> Optional[bool]:
+            it0 = it
+            while isinstance(it, ast.Call) and isinstance(it.func, ast.Name) and it.func.id in ("list", "tuple", "iter") and len(it.args) == 1:
+                it = it.args[0]
+            it = S.single_value(it)
+            if isinstance(it, ast.Name) and it.id == pidx and all(b.kind == "param" for b in S.binds(it)):
+                return True
+            if any(isinstance(x, ast.Name) and x.id == pidx for x in ast.walk(it)):
+                return False        # reversed(indices), sorted(indices), indices[::-1], ...
+            return None
+        sepv = S.single_value(v.func.value) if isinstance(v, ast.Call) and isinstance(v.func, ast.Attribute) else None
         if isinstance(v, ast.Call) and isinstance(v.func, ast.Attribute) and v.func.attr == "join" and len(v.args) == 1 \
-                and isinstance(v.func.value, ast.Constant) and v.func.value.value.strip() == ",":
-            gen = v.args[0]
-            if isinstance(gen, (ast.GeneratorExp, ast.ListComp)) and len(gen.generators) == 1 and not gen.generators[0].ifs:
+                and isinstance(sepv, ast.Constant) and isinstance(sepv.value, str) and sepv.value.strip() == ",":
+            gen = S.single_value(v.args[0])
+            if isinstance(gen, (ast.GeneratorExp, ast.ListComp)) and len(gen.generators) == 1 and not gen.generators[0].ifs \
+                    and isinstance(gen.generators[0].target, ast.Name):
                 g0 = gen.generators[0]
-                elt = gen.elt
-                elt_ok = isinstance(elt, ast.Call) and call_name(elt) == "str" and len(elt.args) == 1 \
-                    and isinstance(elt.args[0], ast.Name) and isinstance(g0.target, ast.Name) and elt.args[0].id == g0.target.id
-                if isinstance(elt, ast.FormattedValue) or isinstance(elt, ast.JoinedStr):
-                    tt, hh = template_of(elt)
-                    elt_ok = tt == "⟨0⟩" and isinstance(hh[0], ast.Name) and isinstance(g0.target, ast.Name) and hh[0].id == g0.target.id
-                it_ok = isinstance(g0.iter, ast.Name) and g0.iter.id == pidx
-                good = elt_ok and it_ok
-                if not it_ok:
-                    why = f"the indices are rendered from `{ast.unparse(g0.iter)}`, not from `{pidx}` in the order given"
-                elif not elt_ok:
-                    why = f"an index is rendered as `{ast.unparse(elt)}` instead of itself"
-            elif isinstance(gen, ast.Call) and call_name(gen) == "map" and len(gen.args) == 2 and ast.unparse(gen.args[0]) == "str":
-                good = isinstance(gen.args[1], ast.Name) and gen.args[1].id == pidx
-                why = f"the indices are rendered from `{ast.unparse(gen.args[1])}`, not from `{pidx}` in the order given"
+                elt_ok, it_ok = renders_itself(gen.elt, g0.target.id), in_order(g0.iter)
+                if it_ok is False:
+                    good, why = False, f"the indices are rendered from `{ast.unparse(g0.iter)}`, not from `{pidx}` in the order given"
+                elif elt_ok is False:
+                    good, why = False, f"an index is rendered as `{ast.unparse(gen.elt)}` instead of itself"
+                elif it_ok and elt_ok:
+                    good = True
+            elif isinstance(gen, ast.Call) and call_name(gen) == "map" and len(gen.args) == 2 and ast.unparse(gen.args[0]) in ("str", "repr"):
+                it_ok = in_order(gen.args[1])
+                if it_ok is not None:
+                    good = it_ok
+                    why = f"the indices are rendered from `{ast.unparse(gen.args[1])}`, not from `{pidx}` in the order given"
+        if good is None:
+            raise AnalysisError(f"{rid}: {f.qual}: the index text `{ast.unparse(v)}` is not a recognised rendering of `{pidx}` "
+                                f"(expected `sep.join(str(i) for i in {pidx})` or an equivalent spelling)")
         facts = {"template": t, "indices": ast.unparse(v)}
         if good:
             ctx.ok(rid, f, lines[0], f"{cls.name} writes `name[i, j]` with all indices in the order given", facts, label="index rendering")
@@ -1983,34 +2178,59 @@ def r6_placeholder_map(ctx, rid):
     calls = [c for c in walk_shallow(f.node) if isinstance(c, ast.Call) and is_attr_of(c.func, f.self_name, "_expr_to_jac_str")]
     ctx.require(len(calls) >= 1, f"{rid}: no _expr_to_jac_str call left in get_jacobian_func")
 
-    def full_map(e) -> Optional[bool]:
+    def group_element_key(k) -> Optional[ast.AST]:
+        """`k` is component of one element of one delay group (a list that is a value of a local dict): the binder of the element"""
+        ib = iter_bind(S, k)
+        if ib is None:
+            return None
+        role, base, rest = element_origin(ib[0].expr, ib[1])
+        if role == "value" and not rest and isinstance(base, ast.Name):
+            # for (var, delay), fresh in past_map.items(): the placeholder map of _get_symbolic_rhs itself
+            bs0 = S.binds(base)
+            if len(bs0) == 1 and bs0[0].kind == "value" and isinstance(bs0[0].expr, ast.Call) \
+                    and call_name(bs0[0].expr) == "_get_symbolic_rhs":
+                return ib[0].node
+            return None
+        if role != "elem" or len(rest) != 1:
+            return None
+        if isinstance(base, ast.Subscript):
+            base = base.value       # for elem in groups[d]
+            if isinstance(base, ast.Name) and all(b.kind == "value" for b in S.binds(base)):
+                return ib[0].node
+            return None
+        bb = iter_bind(S, base)
+        if bb is None or element_origin(bb[0].expr, bb[1])[0] != "value":
+            return None
+        return ib[0].node
+
+    def full_map(e, depth=0) -> Optional[bool]:
         """True: the map with one code string per placeholder of every delay group; False: an empty literal; None: unknown"""
+        if depth > 4:
+            return None
         if isinstance(e, ast.Dict):
             return False if not e.keys else None
         if isinstance(e, ast.Call) and call_name(e) == "dict" and not e.args and not e.keywords:
             return False
+        if isinstance(e, ast.DictComp):
+            # {fresh: code for group in groups.values() for fresh, _, idx in group}: unfiltered -> one entry per placeholder
+            if any(g.ifs for g in e.generators):
+                return None
+            return True if group_element_key(e.key) is not None else None
         if not isinstance(e, ast.Name):
             return None
         sts = [st for st in walk_shallow(f.node) if isinstance(st, ast.Assign) and len(st.targets) == 1
                and isinstance(st.targets[0], ast.Subscript) and isinstance(st.targets[0].value, ast.Name) and st.targets[0].value.id == e.id]
         if not sts:
             v = S.single_value(e)
-            return full_map(v) if v is not e else None
+            return full_map(v, depth + 1) if v is not e else None
         loops = set()
         for st in sts:
-            k = st.targets[0].slice
-            if not isinstance(k, ast.Name):
+            binder = group_element_key(st.targets[0].slice)
+            if binder is None:
                 return None
-            bs = S.binds(k)
-            if len(bs) != 1 or bs[0].kind != "iter" or not isinstance(bs[0].node, ast.For):
+            if not isinstance(binder, ast.For):
                 return None
-            role, base, rest = element_origin(bs[0].expr, bs[0].path)
-            if role != "elem" or len(rest) != 1 or not isinstance(base, ast.Name):
-                return None
-            bb = S.binds(base)
-            if len(bb) != 1 or bb[0].kind != "iter" or element_origin(bb[0].expr, bb[0].path)[0] != "value":
-                return None
-            loops.add(bs[0].node)
+            loops.add(binder)
         for lp in loops:       # every path through the loop body stores
             def covers(stmts):
                 for s in stmts:
@@ -2018,6 +2238,10 @@ def r6_placeholder_map(ctx, rid):
                         return True
                     if isinstance(s, ast.If) and s.orelse and covers(s.body) and covers(s.orelse):
                         return True
+                    if isinstance(s, (ast.Continue, ast.Break, ast.Return)):
+                        return False
+                    if isinstance(s, ast.If) and any(isinstance(x, (ast.Continue, ast.Break, ast.Return)) for x in ast.walk(s)):
+                        return False
                 return False
             if not covers(lp.body):
                 return None
@@ -2042,82 +2266,214 @@ def r6_placeholder_map(ctx, rid):
 
 
 
+def _free_symbol_generators(fnode: ast.AST):
+    """(binder, target name, X) for every `for s in X.free_symbols` loop / comprehension generator (order wrappers allowed)."""
+    out = []
+    for n in ast.walk(fnode):
+        gens = []
+        if isinstance(n, ast.For):
+            gens = [(n, n.target, n.iter)]
+        elif isinstance(n, _COMPS):
+            gens = [(n, g.target, g.iter) for g in n.generators]
+        for binder, tgt, it in gens:
+            it = strip_wrappers(it)
+            if isinstance(it, ast.Attribute) and it.attr == "free_symbols" and isinstance(tgt, ast.Name):
+                out.append((binder, tgt.id, it.value))
+    return out
+
+
+def _membership_table(t: ast.AST, sym: str) -> Optional[Tuple[Optional[str], bool]]:
+    """`sym in T` / `sym in T.keys()` / `T.get(sym) is not None` -> (T, True); other tests -> None"""
+    if isinstance(t, ast.Compare) and len(t.ops) == 1 and isinstance(t.ops[0], ast.In) and isinstance(t.left, ast.Name) and t.left.id == sym:
+        c = t.comparators[0]
+        if isinstance(c, ast.Call) and isinstance(c.func, ast.Attribute) and c.func.attr == "keys" and not c.args:
+            c = c.func.value
+        c = strip_wrappers(c)
+        if isinstance(c, ast.Call) and isinstance(c.func, ast.Attribute) and c.func.attr == "keys" and not c.args:
+            c = c.func.value
+        if isinstance(c, ast.Name):
+            return c.id, True
+    return None
+
+
 def r7_algebraic_expansion_fixpoint(ctx, rid):
     """Before differentiation every algebraic (non-DE) intermediate must be expanded until none is left: a symbol that
     stays opaque makes sympy.diff drop the chain-rule terms through it, while the generated vector field still
-    evaluates it.  Structural obligations on the expander nested in _get_symbolic_rhs:
-      (a) the substitution candidates are ALL free symbols found in the definitions table - the guard of the
-          substitution store mentions only the loop symbol and that table (no "already expanded" filter, no depth bound);
-      (b) the loop repeats while the expression still changes;
+    evaluates it.  Structural obligations on the expander (the function, nested in or called by _get_symbolic_rhs, that
+    iterates over `.free_symbols`):
+      (a) the substitution candidates are ALL free symbols found in the definitions table - the filter of the
+          substitution map mentions only the loop symbol and that table (no "already expanded" filter, no depth bound);
+      (b) the loop repeats while the expression still changes (decided on the CFG: once the expression was replaced by its
+          substituted form, control cannot leave the loop before the loop test was passed again / the change flag is set);
       (c) every DE right-hand side goes through the expander before it is appended to the list that is differentiated."""
     f = ctx.repo.get_func(CG, "ComputeGraph._get_symbolic_rhs")
-    exp = None
-    for g in f.nested.values():
-        if any(isinstance(n, ast.Attribute) and n.attr == "free_symbols" for n in ast.walk(g.node)):
-            exp = g
-    if exp is None:
-        raise AnalysisError(f"{rid}: the expander of algebraic intermediates (nested function reading .free_symbols) was not found")
-    loops = [n for n in walk_shallow(exp.node) if isinstance(n, ast.While)]
-    if len(loops) != 1:
-        raise AnalysisError(f"{rid}: {exp.qual}: expected one while loop, found {len(loops)}")
-    loop = loops[0]
-    fors = [n for n in ast.walk(loop) if isinstance(n, ast.For) and any(isinstance(a, ast.Attribute) and a.attr == "free_symbols" for a in ast.walk(n.iter))]
-    if len(fors) != 1 or not isinstance(fors[0].target, ast.Name):
+    cands = list(f.nested.values())
+    for c in walk_shallow(f.node):
+        if isinstance(c, ast.Call) and isinstance(c.func, ast.Attribute) and is_attr_of(c.func, f.self_name or ""):
+            for g in ctx.cg.resolve_call(f, c)[0]:
+                if g not in cands and g is not f:
+                    cands.append(g)
+    exps = [g for g in cands if _free_symbol_generators(g.node)]
+    if len(exps) != 1:
+        raise AnalysisError(f"{rid}: the expander of algebraic intermediates (function iterating over .free_symbols, nested in or "
+                            f"called by _get_symbolic_rhs) was not found uniquely ({[g.qualname for g in exps]})")
+    exp = exps[0]
+    gens = _free_symbol_generators(exp.node)
+    if len(gens) != 1 or not isinstance(gens[0][2], ast.Name):
         raise AnalysisError(f"{rid}: {exp.qual}: loop over free_symbols not recognised")
-    fl = fors[0]
-    sym = fl.target.id
-    # the definitions table: a dict of the enclosing function filled from var_updates['non-DEs']
-    stores = [n for n in ast.walk(fl) if isinstance(n, ast.Assign) and len(n.targets) == 1 and isinstance(n.targets[0], ast.Subscript)
-              and isinstance(n.targets[0].slice, ast.Name) and n.targets[0].slice.id == sym]
-    if len(stores) != 1:
-        raise AnalysisError(f"{rid}: {exp.qual}: substitution store subs[sym] = ... not recognised")
-    st = stores[0]
-    val = st.value
+    binder, sym, X = gens[0]
+    X = X.id
+    # ---- (a) the substitution map: key = the symbol, value = table[symbol]
+    if isinstance(binder, ast.For):
+        stores = [n for n in ast.walk(binder) if isinstance(n, ast.Assign) and len(n.targets) == 1 and isinstance(n.targets[0], ast.Subscript)
+                  and isinstance(n.targets[0].slice, ast.Name) and n.targets[0].slice.id == sym]
+        if len(stores) != 1:
+            raise AnalysisError(f"{rid}: {exp.qual}: substitution store subs[sym] = ... not recognised")
+        st, val = stores[0], stores[0].value
+        tests = [(a.test, any(contains(b, st) or b is st for b in a.body)) for a in _ancestors_of(st) if isinstance(a, ast.If) and _inside(binder, a)]
+        # `if sym not in table: continue` before the store
+        for b in binder.body:
+            if contains(b, st) or b is st:
+                break
+            if isinstance(b, ast.If) and not b.orelse and b.body and isinstance(b.body[-1], ast.Continue):
+                tests.append((b.test, False))
+        guards = []
+        for t, positive in tests:
+            if not positive:
+                if isinstance(t, ast.UnaryOp) and isinstance(t.op, ast.Not):
+                    t = t.operand
+                elif isinstance(t, ast.Compare) and len(t.ops) == 1 and isinstance(t.ops[0], ast.NotIn):
+                    t = ast.Compare(left=t.left, ops=[ast.In()], comparators=t.comparators)
+                else:
+                    raise AnalysisError(f"{rid}: {exp.qual}: filter `{ast.unparse(t)}` of the substitution candidates not recognised")
+            guards.append(t)
+    elif isinstance(binder, ast.DictComp) and len(binder.generators) == 1:
+        if not (isinstance(binder.key, ast.Name) and binder.key.id == sym):
+            raise AnalysisError(f"{rid}: {exp.qual}: substitution map is not keyed by the free symbol")
+        st, val = binder, binder.value
+        while not isinstance(st, ast.stmt):
+            st = parent(st)
+        guards = list(binder.generators[0].ifs)
+    else:
+        raise AnalysisError(f"{rid}: {exp.qual}: substitution map over free_symbols has an unrecognised form")
     if not (isinstance(val, ast.Subscript) and isinstance(val.value, ast.Name) and isinstance(val.slice, ast.Name) and val.slice.id == sym):
         raise AnalysisError(f"{rid}: {exp.qual}: substituted value is not table[sym]")
     table = val.value.id
-    filled = [n for n in walk_shallow(f.node) if isinstance(n, ast.Assign) and len(n.targets) == 1 and isinstance(n.targets[0], ast.Subscript)
-              and isinstance(n.targets[0].value, ast.Name) and n.targets[0].value.id == table]
+    flat = []
+    for gd in guards:
+        flat += gd.values if isinstance(gd, ast.BoolOp) and isinstance(gd.op, ast.And) else [gd]
+    member = [gd for gd in flat if (_membership_table(gd, sym) or (None,))[0] == table]
+    if not member:
+        raise AnalysisError(f"{rid}: {exp.qual}: substitution is not guarded by a membership test in `{table}`")
+    # the definitions table is filled from var_updates['non-DEs'] (in the enclosing function, or handed over as an argument)
+    host, tname = (f, table)
+    if table in exp.params:
+        pos = [p_ for p_ in exp.params if p_ != exp.self_name].index(table)
+        args = []
+        for c in walk_shallow(f.node):
+            if isinstance(c, ast.Call) and exp in ctx.cg.resolve_call(f, c)[0]:
+                a = _call_args(c, [p_ for p_ in exp.params if p_ != exp.self_name])
+                args.append(a.get(table))
+        if not args or not all(isinstance(a, ast.Name) for a in args) or len({a.id for a in args}) != 1:
+            raise AnalysisError(f"{rid}: cannot follow the definitions table `{table}` of {exp.qualname} to its call sites")
+        tname = args[0].id
+    filled = [n for n in walk_shallow(host.node) if isinstance(n, ast.Assign) and len(n.targets) == 1 and isinstance(n.targets[0], ast.Subscript)
+              and isinstance(n.targets[0].value, ast.Name) and n.targets[0].value.id == tname]
     in_nonde_loop = any(isinstance(a, ast.For) and "non-DEs" in ast.unparse(a.iter) for x in filled for a in _ancestors_of(x))
-    if not filled or not in_nonde_loop:
-        raise AnalysisError(f"{rid}: the definitions table `{table}` is not filled from var_updates['non-DEs']")
-    guards = [a for a in _ancestors_of(st) if isinstance(a, ast.If) and _inside(fl, a)]
+    if not in_nonde_loop:
+        for n in walk_shallow(host.node):     # table = {sym: expr for ... in var_updates['non-DEs'] ...}
+            if isinstance(n, ast.Assign) and any(isinstance(t, ast.Name) and t.id == tname for t in n.targets) \
+                    and isinstance(n.value, ast.DictComp) and any("non-DEs" in ast.unparse(g.iter) for g in n.value.generators):
+                in_nonde_loop = True
+    if not in_nonde_loop:
+        raise AnalysisError(f"{rid}: the definitions table `{tname}` is not filled from var_updates['non-DEs']")
     allowed = {sym, table}
     extra = set()
-    for gnode in guards:
-        for n in ast.walk(gnode.test):
+    for gd in guards:
+        for n in ast.walk(gd):
             if isinstance(n, ast.Name) and n.id not in allowed:
                 extra.add(n.id)
-    facts = {"expander": exp.qualname, "guards": [norm(gd) for gd in guards], "table": table}
-    if not guards:
-        raise AnalysisError(f"{rid}: {exp.qual}: substitution is not guarded by a membership test in `{table}`")
+    facts = {"expander": exp.qualname, "guards": [ast.unparse(gd) for gd in guards], "table": table}
     if extra:
-        ctx.violation(rid, exp, st, f"the expansion of algebraic intermediates skips symbols depending on {sorted(extra)} (guard "
-                                    f"`{norm(guards[0])}`): an intermediate that re-appears through another one stays an opaque symbol, and "
-                                    f"sympy.diff drops the chain-rule terms through it (Jacobian != derivative of the vector field)", facts,
-                      label="expansion candidates = all algebraic symbols")
+        ctx.violation(rid, exp, st, f"the expansion of algebraic intermediates skips symbols depending on {sorted(extra)} (filter "
+                                    f"`{ast.unparse(guards[0])}`): an intermediate that re-appears through another one stays an opaque "
+                                    f"symbol, and sympy.diff drops the chain-rule terms through it (Jacobian != derivative of the vector "
+                                    f"field)", facts, label="expansion candidates = all algebraic symbols")
     else:
         ctx.ok(rid, exp, st, "every free symbol that has an algebraic definition is substituted in every round", facts,
                label="expansion candidates = all algebraic symbols")
-    # (b) fixpoint: the while condition is a flag set whenever the expression changed
-    flag = loop.test.id if isinstance(loop.test, ast.Name) else None
-    if flag is None:
-        raise AnalysisError(f"{rid}: {exp.qual}: while condition is not a change flag")
-    sets_true = [n for n in ast.walk(loop) if isinstance(n, ast.Assign) and any(isinstance(t, ast.Name) and t.id == flag for t in n.targets)
-                 and isinstance(n.value, ast.Constant) and n.value.value is True]
-    changed_guard = False
-    for n in sets_true:
-        for a in _ancestors_of(n):
-            if isinstance(a, ast.If) and _inside(loop, a) and any(isinstance(c, ast.Compare) and isinstance(c.ops[0], ast.NotEq) for c in ast.walk(a.test)):
-                changed_guard = True
-    if sets_true and changed_guard:
-        ctx.ok(rid, exp, loop, "the expansion repeats until the expression no longer changes", label="expansion runs to a fixpoint")
+    # ---- (b) fixpoint
+    loops = [a for a in _ancestors_of(binder) if isinstance(a, (ast.While, ast.For)) and a is not binder and _inside(exp.node, a)]
+    loops = [a for a in loops if not any(isinstance(x, (ast.FunctionDef, ast.Lambda)) and _inside(a, x) and _inside(x, binder) for x in ast.walk(a))]
+    label_b = "expansion runs to a fixpoint"
+    if not loops:
+        ctx.violation(rid, exp, st, f"the expansion of `{X}` is a single pass (the substitution is not inside a loop): nested algebraic "
+                                    f"intermediates stay unexpanded", label=label_b)
     else:
-        ctx.violation(rid, exp, loop, "the expansion loop does not repeat while the expression changes (single pass): nested algebraic "
-                                      "intermediates stay unexpanded", label="expansion runs to a fixpoint")
-    # (c) every DE expression passes the expander before it is stored in the differentiated list
-    calls = [c for c in walk_shallow(f.node) if isinstance(c, ast.Call) and isinstance(c.func, ast.Name) and c.func.id == exp.name]
-    de_loop = [n for n in walk_shallow(f.node) if isinstance(n, ast.For) and "'DEs'" in ast.unparse(n.iter)]
+        whiles = [a for a in loops if isinstance(a, ast.While)]
+        loop = whiles[0] if whiles else loops[0]
+        Se = Scope(ctx, exp)
+        cfg = Se.cfg
+
+        def is_subst(v, depth=0):
+            v = Se.single_value(v) if depth == 0 else v
+            return isinstance(v, ast.Call) and isinstance(v.func, ast.Attribute) and v.func.attr in ("subs", "xreplace", "replace")
+        E = []
+        for n in ast.walk(loop):
+            if isinstance(n, ast.Assign) and any(isinstance(t, ast.Name) and t.id == X for t in n.targets):
+                v = n.value
+                if isinstance(v, ast.Name):
+                    bs = Se.binds(v)
+                    if bs and all(b.kind == "value" and b.expr is not None and is_subst(b.expr, 1) for b in bs):
+                        E.append(n)
+                        continue
+                if is_subst(v, 1):
+                    E.append(n)
+                    continue
+                raise AnalysisError(f"{rid}: {exp.qual}: `{norm(n)}` re-binds the expanded expression in an unrecognised way")
+        if not E:
+            raise AnalysisError(f"{rid}: {exp.qual}: the loop around the substitution never re-binds `{X}` to its substituted form "
+                                f"(unrecognised form)")
+        if isinstance(loop, ast.For):
+            ctx.violation(rid, exp, loop, f"the expansion is repeated a bounded number of times (`{norm(loop)}`), not until the expression "
+                                          f"stops changing: deeper chains of algebraic intermediates stay unexpanded", label=label_b)
+        else:
+            test = loop.test
+            always = isinstance(test, ast.Constant) and bool(test.value)
+            flag = test.id if isinstance(test, ast.Name) else None
+            if not always and flag is None:
+                raise AnalysisError(f"{rid}: {exp.qual}: while condition `{ast.unparse(test)}` is neither constant nor a change flag")
+            why = None
+            for e in E:
+                if always:
+                    p = cfg.reachable_avoiding(e, cfg.EXIT, lambda n: n is loop)
+                    if p is not None:
+                        why = f"after `{norm(e)}` the function can return without another round ({cfg.path_str(p)})"
+                else:
+                    def sets(n, v):
+                        return isinstance(n, ast.Assign) and any(isinstance(t, ast.Name) and t.id == flag for t in n.targets) \
+                            and isinstance(n.value, ast.Constant) and bool(n.value.value) is v and isinstance(n.value.value, bool)
+
+                    def writes_flag(n):
+                        return isinstance(n, (ast.Assign, ast.AugAssign)) and flag in _stmt_targets(n)
+                    for gnode in (loop, cfg.EXIT):
+                        p = cfg.reachable_avoiding(e, gnode, lambda n: sets(n, True) or (gnode is cfg.EXIT and n is loop))
+                        if p is not None and not sets(e, True):
+                            why = why or (f"after `{norm(e)}` the change flag `{flag}` is not set on the path {cfg.path_str(p)}: the loop "
+                                          f"ends after this pass")
+                    for t in [n for n in ast.walk(loop) if sets(n, True)]:
+                        for n2 in [n for n in ast.walk(loop) if writes_flag(n) and not sets(n, True)]:
+                            p = cfg.reachable_avoiding(t, n2, lambda n: n is loop)
+                            if p is not None:
+                                why = why or f"`{norm(n2)}` resets the change flag after `{norm(t)}` within the same round"
+            if why is None:
+                ctx.ok(rid, exp, loop, "the expansion repeats until the expression no longer changes", label=label_b)
+            else:
+                ctx.violation(rid, exp, loop, f"the expansion loop does not repeat while the expression changes: {why}; nested algebraic "
+                                              f"intermediates stay unexpanded", label=label_b)
+    # ---- (c) every DE expression passes the expander before it is stored in the differentiated list
+    calls = [c for c in walk_shallow(f.node) if isinstance(c, ast.Call) and exp in ctx.cg.resolve_call(f, c)[0]]
+    de_loop = [n for n in walk_shallow(f.node) if isinstance(n, ast.For) and _iterates_des(n.iter, f.self_name or "")]
     if not de_loop:
         raise AnalysisError(f"{rid}: loop over var_updates['DEs'] not found in _get_symbolic_rhs")
     if any(_inside(de_loop[0], c) for c in calls):
@@ -2125,6 +2481,11 @@ def r7_algebraic_expansion_fixpoint(ctx, rid):
     else:
         ctx.violation(rid, f, de_loop[0], "DE right-hand sides are no longer passed through the expander of algebraic intermediates",
                       label="DE rhs passes the expander")
+
+
+def _stmt_targets(st) -> List[str]:
+    ts = st.targets if isinstance(st, ast.Assign) else [st.target]
+    return [n.id for t in ts for n in ast.walk(t) if isinstance(n, ast.Name)]
 
 
 def _ancestors_of(n):
@@ -2144,18 +2505,24 @@ def r8_placeholder_families_disjoint(ctx, rid):
     placeholder symbol and then replacing the placeholder texts by code (`y[i]`, `_yhist_d[k]`).  The placeholder names of the
     two families are built from a counter each; if both families use the same name template, the k-th delayed term takes over
     the placeholder of state variable k and every occurrence of that state variable is printed as a history component."""
-    import ast as _ast
-    from engine.util import fstring_template as _ft
     checked = 0
     for q in ("ComputeGraph._expr_to_jac_str",):
         f = ctx.repo.get_func(CG, q)
+        S = Scope(ctx, f)
         fams = []
-        for loop in [n for n in walk_shallow(f.node) if isinstance(n, _ast.For)]:
-            for c in _ast.walk(loop):
-                if isinstance(c, _ast.Call) and call_name(c) == "Symbol" and c.args and isinstance(c.args[0], _ast.JoinedStr):
-                    tpl = _ft(c.args[0])
-                    # normalise the counter hole
-                    fams.append((re.sub(r"⟨.*?⟩", "⟨k⟩", tpl), loop, c))
+        for c in walk_shallow(f.node):
+            if not (isinstance(c, ast.Call) and call_name(c) == "Symbol" and c.args):
+                continue
+            # the family = the loop / comprehension that produces one placeholder per element
+            binders = [a for a in ancestors(c) if isinstance(a, (ast.For,) + _COMPS) and contains(f.node, a)]
+            if not binders:
+                continue
+            tpl, holes = string_template(S, c.args[0])
+            if tpl is None:
+                raise AnalysisError(f"{rid}: {f.qual}: name of the placeholder `{norm(c)}` is not a recognisable string template")
+            if not holes:
+                raise AnalysisError(f"{rid}: {f.qual}: placeholder name `{tpl}` built in a loop has no counter hole (unrecognised form)")
+            fams.append((re.sub(r"⟨.*?⟩", "⟨k⟩", tpl), binders[0], c))
         if len(fams) < 2:
             raise AnalysisError(f"{rid}: {f.qual}: expected two placeholder families (state symbols, delayed-state symbols), found {len(fams)}")
         checked += 1
@@ -2171,7 +2538,6 @@ def r8_placeholder_families_disjoint(ctx, rid):
                                             f"overwrites the code string of the earlier one (state variable k is printed as delayed term k)", facts,
                           label="placeholder name families are disjoint")
         else:
-            # no template may be a prefix-extension of another with a hole at the boundary (ambiguous textual replacement)
             ctx.ok(rid, f, fams[0][2], "state and delayed-state placeholders use different name templates", facts,
                    label="placeholder name families are disjoint")
     if checked < 1:
